@@ -109,7 +109,7 @@ Definition row_generalises (r1 r2 : list (option term)) : bool :=
                       | Some _, None => false
                       end) r1 r2.
 
-Fixpoint rows_distinct_from (r : list (option term)) (others : list (list (option term))) : bool :=
+Definition rows_distinct_from (r : list (option term)) (others : list (list (option term))) : bool :=
   forallb (fun o => negb (row_generalises r o) && negb (row_generalises o r)) others.
 
 Fixpoint rows_distinct (rows : list (list (option term))) : bool :=
